@@ -25,6 +25,26 @@ ASSUMPTIONS = ["operands are finite non-zero floats/ints so products and quotien
 VALS = [(2.0, 4.0), (0.1, 0.3), (-7.5, 1e-3), (1e12, 3.0), (1 / 3, 7 / 9), (5, 2)]
 
 
+SI_DEFINITIONS = {
+    "Acceleration": [0, 0, 0, 1, -2, 0, 0, 0, 0], "Angle": [1, 0, 0, 0, 0, 0, 0, 0, 0], "AngularAcceleration": [1, 0, 0, 0, -2, 0, 0, 0, 0],
+    "AngularVelocity": [1, 0, 0, 0, -1, 0, 0, 0, 0], "Area": [0, 0, 0, 2, 0, 0, 0, 0, 0], "Density": [0, 0, 1, -3, 0, 0, 0, 0, 0],
+    "Dimensionless": [0] * 9, "Duration": [0, 0, 0, 0, 1, 0, 0, 0, 0], "ElectricalCharge": [0, 0, 0, 0, 1, 1, 0, 0, 0],
+    "ElectricalCurrent": [0, 0, 0, 0, 0, 1, 0, 0, 0], "ElectricalPotential": [0, 0, 1, 2, -3, -1, 0, 0, 0],
+    "ElectricalResistance": [0, 0, 1, 2, -3, -2, 0, 0, 0], "Energy": [0, 0, 1, 2, -2, 0, 0, 0, 0], "FlowMass": [0, 0, 1, 0, -1, 0, 0, 0, 0],
+    "FlowVolume": [0, 0, 0, 3, -1, 0, 0, 0, 0], "Force": [0, 0, 1, 1, -2, 0, 0, 0, 0], "Frequency": [0, 0, 0, 0, -1, 0, 0, 0, 0],
+    "Length": [0, 0, 0, 1, 0, 0, 0, 0, 0], "Mass": [0, 0, 1, 0, 0, 0, 0, 0, 0], "Momentum": [0, 0, 1, 1, -1, 0, 0, 0, 0],
+    "Power": [0, 0, 1, 2, -3, 0, 0, 0, 0], "Pressure": [0, 0, 1, -1, -2, 0, 0, 0, 0], "SolidAngle": [0, 1, 0, 0, 0, 0, 0, 0, 0],
+    "Speed": [0, 0, 0, 1, -1, 0, 0, 0, 0], "Temperature": [0, 0, 0, 0, 0, 0, 1, 0, 0], "Torque": [0, 0, 1, 2, -2, 0, 0, 0, 0],
+    "Volume": [0, 0, 0, 3, 0, 0, 0, 0, 0], "AbsorbedDose": [0, 0, 0, 2, -2, 0, 0, 0, 0], "AmountOfSubstance": [0, 0, 0, 0, 0, 0, 0, 1, 0],
+    "CatalyticActivity": [0, 0, 0, 0, -1, 0, 0, 1, 0], "ElectricalCapacitance": [0, 0, -1, -2, 4, 2, 0, 0, 0],
+    "ElectricalConductance": [0, 0, -1, -2, 3, 2, 0, 0, 0], "ElectricalInductance": [0, 0, 1, 2, -2, -2, 0, 0, 0],
+    "EquivalentDose": [0, 0, 0, 2, -2, 0, 0, 0, 0], "Illuminance": [0, 1, 0, -2, 0, 0, 0, 0, 1], "LuminousFlux": [0, 1, 0, 0, 0, 0, 0, 0, 1],
+    "LuminousIntensity": [0, 0, 0, 0, 0, 0, 0, 0, 1], "MagneticFluxDensity": [0, 0, 1, 0, -2, -1, 0, 0, 0],
+    "MagneticFlux": [0, 0, 1, 2, -2, -1, 0, 0, 0], "RadioActivity": [0, 0, 0, 0, -1, 0, 0, 0, 0],
+    # (LinearDensity is the library's 'per metre' quantity, not kg/m: its declared signature is not judged against a definition)
+}
+
+
 def _classes():
     from pydsol.core import units
     cl = sorted(units.Quantity.__subclasses__(), key=lambda c: c.__name__)
@@ -202,6 +222,11 @@ def _run(case, ctx):
     if fam == "single":
         A = cl[case["a"]]
         sa = list(A.sisig())
+        # the declared signature itself, against this check's own table of the SI definitions (order rad, sr, kg, m, s, A, K, mol, cd)
+        ctx.count("declared_signatures_checked")
+        if A.__name__ in SI_DEFINITIONS and sa != SI_DEFINITIONS[A.__name__]:
+            ctx.viol("declared-signature-differs-from-the-SI-definition", {"class": A.__name__, "declared": sa, "SI": SI_DEFINITIONS[A.__name__]})
+            return
         zero = [0] * 9
         for (va, vb), ua in zip(VALS, itertools.cycle(_units_of(A))):
             a, b = A(va, ua), A(vb, _units_of(A)[-1])
